@@ -18,7 +18,7 @@ from engine import (Check, tlc_ok, validate_traces, pmap, run, tool_env, BIN,
 import regen
 
 ROLES = ['source', 'output', 'srcdir', 'outdir', 'copy', 'install', 'insthdr',
-         'depfile', 'header', 'finddir']
+         'depfile', 'header', 'finddir', 'rootobj']
 PUNCT = list('!"#$%&\'()*+,-.:;<=>?@[]^_`{|}~ ')
 
 
@@ -137,6 +137,15 @@ def project_for(role, n):
     elif role == 'output':
         bfg = "executable(%r, ['main.c'])" % n
         prereq, outs = 'main.c', [('file', n)]
+    elif role == 'rootobj':
+        # an object file placed directly in the build directory (no
+        # intermediate directory) and named as an argument of the link step
+        files[n + '.c'] = 'int f(void){return 0;}\n'
+        files['main.c'] = 'int f(void);\nint main(void){return f();}\n'
+        bfg = ("o = object_file(file=%r)\n"
+               "m = object_file(file='main.c')\n"
+               "executable('prog', [m, o])" % (n + '.c'))
+        prereq, outs = n + '.c', [('obj', n + '.c'), ('file', 'prog')]
     elif role == 'srcdir':
         files[n + '/m.c'] = 'int f(void){return 1;}\n'
         bfg = "executable('prog', ['main.c', %r])" % (n + '/m.c')
@@ -192,6 +201,11 @@ def run_cycle(arg):
     try:
         files, prereq, outs = project_for(role, n)
         p = regen.Proj(files, backend=backend)
+        if role == 'rootobj':
+            # the real compiler and linker: a stub does not mind an argument
+            # that looks like an option
+            for k in ('CC', 'CXX', 'AR'):
+                p.env.pop(k, None)
     except OSError as e:
         ev['in_scope'] = False         # the file system itself refuses
         return ev
@@ -361,7 +375,7 @@ def main(argv):
         for b in ('make', 'ninja'):
             roles = ROLES if len(n) <= 4 and not ck.quick else \
                 rnd.sample(ROLES, 2 if ck.quick else 3)
-            if n.startswith('xx'):
+            if n.startswith('xx') or n in ('-x', '(x)', 'x(y)z', ' x'):
                 roles = ROLES
             for r in roles:
                 # (the stub compiler's "// deps:" line is blank-separated;
@@ -406,6 +420,8 @@ def main(argv):
             'C04:%s:%s:none:%s' % (b, r, chars)
         if bad == ['percent']:      # identified by role and clause
             key = 'C04:%s:percent:%s:%s' % (b, r, info[0])
+        if bad == ['leaddash']:     # identified by the role the name plays
+            key = 'C04:%s:leaddash:%s' % (b, r)
         ck.report(key,
                   '%s: backend %s role %s name %r: %s' % (
                       info[0], b, r, n, e.get('note', '')[-200:]),
